@@ -70,7 +70,7 @@ Definition exec (i : instr) (fr : frame) (frs : list frame) (s : mstate) : sres 
   match i with
   | ILoadConstant k =>
       match nth_error (p_consts C) k with
-      | Some c => next (const_to_value c :: stk)
+      | Some c => next (const_to_value O c :: stk)
       | None => SPanic
       end
   | IGetLocal k =>
@@ -152,6 +152,13 @@ Definition exec (i : instr) (fr : frame) (frs : list frame) (s : mstate) : sres 
       | VStruct _ _ vals :: r =>
           match nth_error vals idx with Some v => next (v :: r) | None => SPanic end
       | _ => SPanic
+      end
+  | IPrintString k =>
+      match nth_error (p_strings C) k with
+      | Some text =>
+          SNext {| m_frames := fr :: frs; m_stack := stk; m_last := m_last s;
+                   m_out := m_out s ++ [text]; m_res := m_res s |}
+      | None => SPanic
       end
   | IBuildList n =>
       match pop_n n stk with
